@@ -142,7 +142,9 @@ class ConfigList(ComposedNode, list):
 
     @namespace('ayns')
     def on_merge_impl(self, prefix, other):
-        if isinstance(other, dict):
+        if isinstance(other, dict) and not other.ayns.delete:
+            # (the keys of a mapping which merges into the list have to name existing elements;
+            # a deleting mapping - "!del {..}", a function node - replaces the list like any other deleting node)
             _missing_keys = []
             for key in other.ayns.children_names():
                 first_missing = None
